@@ -175,6 +175,11 @@ func evalPureStmtBlock(vm *r.VM, stmtBlock *syntax.StmtBlock) (r.Element, error)
 			return rtnValue, nil
 		}
 	}
+	// a block made of definitions only (nested 如何 / 定义) has evaluated no
+	// statement: its value is 空, never a nil Element
+	if rtnValue == nil && err == nil {
+		rtnValue = value.NewNull()
+	}
 	return rtnValue, err
 }
 
